@@ -158,26 +158,26 @@ HIST_RULE = ("D1 history driver: seeded histories (2-5 clients, code / hybrid / 
 
 PROPS = {
     "C01": dict(
-        modules=["Fosite.Props.C01", "Fosite.Props.C01b"],
-        drivers=[dict(name="hist", kind="hist")],
+        modules=["Fosite.Props.C01", "Fosite.Props.C01b", "Fosite.Props.StoreAtomic"],
+        drivers=[dict(name="hist", kind="hist"), dict(name="lockfacts", kind="lockfacts", methods=['InvalidateAuthorizeCodeSession', 'GetAuthorizeCodeSession', 'CreateAuthorizeCodeSession', 'RevokeAccessToken', 'RevokeRefreshToken'])],
         rule=HIST_RULE,
         partial=["replay_kills_family (Props/C01b) is over fault-free histories; under storage faults the replay branch ignores revocation errors (C18 covers fail-closed outcomes), and concurrent redemptions of one code are C19's subject"],
     ),
     "C02": dict(
-        modules=["Fosite.Props.C02"],
+        modules=["Fosite.Props.C02", "Fosite.Props.C02b"],
         drivers=[dict(name="hist", kind="hist")],
         rule=HIST_RULE,
-        partial=["'a refused attempt leaves the code usable by its rightful holder' is checked by the monitor and the correspondence (store dump unchanged), not yet as a Lean theorem"],
+        partial=["refusal theorems (Props/C02b: foreign client / different redirect_uri answered invalid_grant, expired code invalid_request, a refused redeem changes nothing but the mint counter and leaves every later request with the same answer) carry the side condition OidcSessionOk, proved to hold in every reachable state (reachable_sessionOk); witness malformed_oidc_session_burns_code shows it is needed: the OIDC companion handler runs after the code handler has committed", "fault-free histories (faults: C18)"],
     ),
     "C03": dict(
-        modules=["Fosite.Props.C03"],
+        modules=["Fosite.Props.C03", "Fosite.Props.C03b", "Fosite.Props.C10b"],
         drivers=[dict(name="hist", kind="hist")],
         rule=HIST_RULE + "; C03 bias: sequences of attempts on one code drawn from {wrong, malformed, absent, other-method, right} verifier",
-        partial=["full statement (binding survives failed attempts) — see pkce_binding_counterexample / known findings"],
+        partial=["C03b.pkce_binding_full proves the full statement (C03.PkceBindingFull) for codes issued by `authorize`; the invariance machinery covers `authorizePar` too but the linking lemma for pushed requests is not written", "fault-free histories (a fault between the PKCE check and the code invalidation is C18's subject; the PKCE session is consumed only after a successful exchange: fix e4cc3e4)"],
     ),
     "C04": dict(
-        modules=["Fosite.Props.C04", "Fosite.Props.C04b"],
-        drivers=[dict(name="hist", kind="hist")],
+        modules=["Fosite.Props.C04", "Fosite.Props.C04b", "Fosite.Props.StoreAtomic"],
+        drivers=[dict(name="hist", kind="hist"), dict(name="lockfacts", kind="lockfacts", methods=['RotateRefreshToken', 'RevokeRefreshToken', 'RevokeAccessToken', 'GetRefreshTokenSession', 'CreateRefreshTokenSession', 'DeleteRefreshTokenSession', 'CreateAccessTokenSession', 'DeleteAccessTokenSession'])],
         rule=HIST_RULE,
         partial=["family clauses (Props/C04b: rotation leaves only the new pair, reuse kills the grant and only that grant, for good) are over fault-free histories; a storage fault inside handleRefreshTokenReuse answers a storage error instead (C18)"],
     ),
@@ -189,7 +189,8 @@ PROPS = {
     ),
     "C06": dict(
         modules=["Fosite.Props.C06", "Fosite.Props.C06b"],
-        drivers=[dict(name="hmac", kind="pure"), dict(name="jwtat", kind="pure", spec_sees_obs=True)],
+        drivers=[dict(name="hmac", kind="pure"), dict(name="jwtat", kind="pure", spec_sees_obs=True), dict(name="hist", kind="hist"),
+                 dict(name="stress", kind="stress", seconds={"quick": 3, "thorough": 30}, only=["token/hmac.", "token/jwt.", "HMAC "])],
         rule="D4 pure driver: tokens minted by the real HMACStrategy.Generate (deterministic crypto/rand stream; global secret lengths 0/1/16/31/32/33/64; entropy 0/16/32/64 [thorough: -1/31/33/100]; hasher default SHA-512/256 and sha256 [thorough: sha512, explicit sha512_256]; plain, ory_at_/ory_rt_/ory_ac_ prefixed and device strategies) and ~140 mutants of each (bit flips in either decoded part, character substitutions incl. non-canonical last characters, truncation/extension, swapping parts between two tokens and with a token minted under a foreign secret, padding / std / hex re-encodings, garbage, empty parts, multiple dots, whitespace/CR/LF/NUL insertion, case changes, every prefix variant) validated by the real Validate / Validate{AccessToken,RefreshToken,AuthorizeCode,DeviceCode} under 6 kinds of global secret x rotated lists = every ordered subset of {A32,B64,short16,minting key} (sampled in quick, exhaustive for two base tokens in thorough); Signature of every mutant; thorough adds every single-bit flip of both parts and 1e6 real mints checked for distinctness; compared: one error class per op, the exact minted token for generate, the exact signature string; non-trivial = decided at the MAC comparison or the base64 layer, or a short key reached behind a usable one, or a token minted, or a non-empty signature extracted; distinct = distinct op lines; jwtat: keys generated once per process (RSA-2048 x2, P-256 x2, P-384); base tokens minted by the real DefaultJWTStrategy.GenerateAccessToken with 12 claim variants; about 340 single mutations of each (alg set to each asymmetric and 27 odd spellings incl. HS*, none/None/NONE, wrong case, empty, absent, non-string, without re-signing; re-signed by the right / other-same-type / other-type key; a real signature under a none/HS/odd header; none with empty, non-empty and missing signature part; HS256/384/512 keyed with PKIX-DER / PKCS1-DER / PEM of the configured and foreign public keys; signature bit flips, truncation, extension, zeroing, ECDSA (r,n-s), parts swapped between tokens; raw headers (non-object, duplicate alg, crit variants, b64=false, embedded jwk) and raw payloads; 1/2/4/5 parts; whitespace, padding, non-canonical base64; JWS JSON serializations) plus random pairs; under every usable and sampled unusable key-getter result (*rsa/*ecdsa.PrivateKey, jose.JSONWebKey by value and pointer with matching / mismatching / symmetric Algorithm and Use, public keys, []byte, nil, opaque signers). Operations: ValidateAccessToken, DefaultSigner.Validate, IntrospectToken through compose.Compose + OAuth2StatelessJWTIntrospectionFactory, AccessTokenSignature, GenerateAccessToken + round trip. Compared: RFC error name/status | ok + token use, subject, scopes, unsigned header members",
         assumptions=["crypto enters as a parameter: the dec/enc/mac facts on every op line are computed with Go's encoding/base64 and crypto/hmac, independently of fosite, and the model decides from them",
                      "theorems naming tampering use explicit hypotheses Lawful (base64 round trip), DotFree, MacCollisionFree, Unforgeable; shown jointly satisfiable by examples; never axioms",
@@ -199,8 +200,8 @@ PROPS = {
                  "freshness of crypto/rand is the rand_fresh assumption; mint ops are supporting evidence only"],
     ),
     "C08": dict(
-        modules=["Fosite.Props.C08", "Fosite.Props.C08b"],
-        drivers=[dict(name="hist", kind="hist")],
+        modules=["Fosite.Props.C08", "Fosite.Props.C08b", "Fosite.Props.StoreAtomic"],
+        drivers=[dict(name="hist", kind="hist"), dict(name="lockfacts", kind="lockfacts", methods=['RevokeAccessToken', 'RevokeRefreshToken', 'GetAccessTokenSession', 'GetRefreshTokenSession'])],
         rule=HIST_RULE,
         partial=["effectiveness / completeness theorems (Props/C08b) are over fault-free histories; a store error during revocation is answered temporarily_unavailable (modelled, C18)"],
     ),
@@ -222,22 +223,22 @@ PROPS = {
     ),
     "C12": dict(
         modules=["Fosite.Props.C12", "Fosite.Props.C12b", "Fosite.Props.C12c"],
-        drivers=[dict(name="scope", kind="pure"), dict(name="audience", kind="pure"), dict(name="hist", kind="hist")],
+        drivers=[dict(name="scope", kind="pure"), dict(name="audience", kind="pure"), dict(name="hist", kind="hist"), dict(name="assertion", kind="pure")],
         rule="D4 pure drivers. scope: every (strategy, matcher list, needle) over the segment alphabet {a,b,*,''} up to 3 (quick) / 4 (thorough) segments with one matcher, sampled/exhaustive pairs of matchers, plus seeded random long dotted names biased to near-matches; non-trivial = accepted, or some matcher agrees with the needle on its first segment. audience: every entry carries the components the real net/url.Parse produced; bounded-exhaustive single whitelisted x single requested URL over schemes x hosts x path shapes ('', '/', '/a', '/a/', '/a/b', '/ab', '/a//', '//a', ...), same-origin path pairs with query/fragment/userinfo decorations, unparsable strings and non-URL audiences in every list position, pairs of lists, seeded random lists with 75% near-match mutations; non-trivial = accepted, or a parse error is involved, or some pair agrees on scheme and host so the path rule decides (default) / is equal up to trailing slashes and case (exact). distinct = distinct op lines",
         assumptions=["scope strings are compared as sequences of Unicode code points in the model and bytes in Go; the scope generators use ASCII only",
                      "audience strings are transported hex-encoded byte by byte, so byte semantics are exact; net/url.Parse is trusted: the model takes its output (ok/scheme/host/path) as input and the harness re-derives it from the raw string on every execution, including replay"],
         partial=["flow confinement (Props/C12c): acceptance => coverage for authorize (code / implicit / hybrid), PAR push, client_credentials, password, device authorization; every Req handed to createCode / createAccess / createRefresh on every path carries exactly the de-duplicated grant (minted_requests_carry_exactly_the_grant); JWT-bearer grants are not in the history model (pure assertion driver, C15); the invariant tying a stored PAR record to its push-time check across a history is not proved (the two one-step halves are)", "observations under the readings chosen: a pushed request is checked against the registration at push time and not again at the authorization endpoint (C12c.pushed_request_outlives_registration_narrowing, replayed on the Go code: accepted, while the same request sent directly is refused invalid_scope; the window is the request_uri lifetime); what the application grants is not compared with what was requested (C12c.consent_may_grant_beyond_the_request)"],
     ),
     "C16": dict(
-        modules=["Fosite.Props.C16", "Fosite.Props.C16b"],
-        drivers=[dict(name="hist", kind="hist")],
+        modules=["Fosite.Props.C16", "Fosite.Props.C16b", "Fosite.Props.StoreAtomic"],
+        drivers=[dict(name="hist", kind="hist"), dict(name="lockfacts", kind="lockfacts", methods=['InvalidateDeviceCodeSession', 'GetDeviceCodeSession', 'CreateDeviceAuthSession'])],
         rule=HIST_RULE + "; device flows: device-authorize, user decision (none/accept/reject) applied by the consent application to the stored request, polling by the right / a wrong / an unauthenticated client, tampered codes, replay after success, time advance across the code lifetime; both store variants (the reference store deletes a used device code; the wrapper variant marks it and answers ErrInvalidatedDeviceCode, chosen per history)",
         partial=["'device and user codes are unguessable and distinct' rests on rand_fresh (C06 mint theorems cover layout/entropy); 'stored only as signatures' is checked by the C20 taint scan",
                  "prescribed answers (Props/C16b): authorization_pending / access_denied / expired_token / invalid_grant with the exact precedence the handler implements (state 0, state 2, expiry, MAC, client), refusals change nothing, replay against a marking store revokes by the device request's id; precedence where several conditions hold is the code's (an undecided expired code answers authorization_pending)"],
     ),
     "C17": dict(
-        modules=["Fosite.Props.C17"],
-        drivers=[dict(name="hist", kind="hist")],
+        modules=["Fosite.Props.C17", "Fosite.Props.StoreAtomic"],
+        drivers=[dict(name="hist", kind="hist"), dict(name="lockfacts", kind="lockfacts", methods=['GetPARSession', 'DeletePARSession', 'CreatePARSession'])],
         rule=HIST_RULE + "; PAR flows: push (authenticated / not, with credentials in the body, with a request_uri inside), use by the pushing / another client, twice, after expiry, with conflicting extra query parameters, unknown URIs, enforcement on/off",
         partial=["request validation of the push (redirect URI, response types) is C13's model; 'pushed values authoritative' is proved on the request the handlers receive and observed end to end through the redirect_uri / PKCE binding of the resulting code"],
     ),
@@ -256,9 +257,9 @@ PROPS = {
                  "RFC 7523: only the time checks of validateTokenClaims are modelled here (aud / jti / key are C15)"],
     ),
     "C10": dict(
-        modules=["Fosite.Props.C10"],
+        modules=["Fosite.Props.C10", "Fosite.Props.C10b"],
         facts=True,
-        drivers=[dict(name="clientauth", kind="pure")],
+        drivers=[dict(name="clientauth", kind="pure"), dict(name="assertion", kind="pure")],
         rule="D5 pure driver 'clientauth': real provider (compose.ComposeAllEnabled over storage.NewMemoryStore, bcrypt cost 4) behind a storage-write recorder. AuthenticateClient is called directly, and NewAccessRequest+NewAccessResponse / NewRevocationRequest / NewPushedAuthorizeRequest+Response / NewDeviceRequest+Response are called with the endpoint's own authentication verdict captured through the ClientAuthenticationStrategy hook. Full cross product (exhaustive in thorough, 6 % seeded sample in quick): 28 registrations (plain/OIDC x 6 token_endpoint_auth_methods x public/confidential x with/without rotated secrets, plus ids and secrets made of URL-special characters) x 17 transports (Basic, body, both same/conflicting, Basic of another or of a public client plus a body id, neither, id only, unescaped, %zz in id/secret, empty id, bad base64, Bearer, no colon, empty Basic secret plus body, URL query) x 5 secret relations x 3 ids x 11 endpoint/grant variants (six grants incl. jwt-bearer with skip off/on, revocation of a live token, PAR, device). Always complete: HTTP preconditions, grant_type variants, explicit client_id next to Basic credentials, the assertion branch as an abstract sub-result (real RS256 assertions: missing, garbage, valid, replayed jti, no token URL), empty-secret registrations. Compared: verdict, result incl. acting client, sorted list of Create*/Delete*/Revoke*/Invalidate*/Rotate* storage calls. Non-trivial = accepted, or invalid_client for a registered id; distinct = distinct op lines",
         assumptions=["bcrypt Compare, r.BasicAuth, url.QueryUnescape and net/http form parsing are parameters computed with the real libraries on each line",
                      "the client_assertion branch is an abstract outcome here (C15 models it)",
@@ -269,7 +270,7 @@ PROPS = {
     ),
     "C13": dict(
         modules=["Fosite.Props.C13", "Fosite.Props.C13b"],
-        drivers=[dict(name="authz", kind="pure", spec_sees_obs=True)],
+        drivers=[dict(name="authz", kind="pure", spec_sees_obs=True), dict(name="hist", kind="hist")],
         rule="D6 pure driver 'authz': the real NewAuthorizeRequest -> grant scopes and openid.DefaultSession -> NewAuthorizeResponse -> WriteAuthorizeResponse / WriteAuthorizeError into httptest.ResponseRecorder, against ComposeAllEnabled over storage.NewMemoryStore. Streams: core (registration: response types x grant types x response modes; 22 response_type strings incl. orderings, duplicates, unknown, case variants, empty; response_mode in {'', query, fragment, form_post, bogus}; scope +- openid; nonce length), state (lengths around the threshold in bytes vs characters, hostile characters, x mode x MinParameterEntropy), redirect (12 registrations x 25 requested redirect_uri values x flow x mode x a later failure), ro (22 request-object variants x 14 registrations x 7 transports x 14 claim sets), prompt (prompt x max_age x session times x public x redirect security x id_token_hint), pkce, misc, rand. Compared per case: verdict plus RFC name/status, HTTP status, placement, target scheme://host/path, sorted parameter names at the placement and in the URL query, echoed state, tokens_in_query. Non-trivial = accepted, or error redirected, or request-object path reached; distinct = distinct op lines",
         assumptions=['net/url, ParseIP, govalidator facts per URI (as in C11), strings.ToLower, strconv.ParseInt are parameters recomputed by the executor (bad-facts otherwise)', 'JWS facts {malformed | alg, kid, signer, claimsValid, claims} under jws_verify_sound; HTTP fetch of request_uri served from one httptest.Server through a rewriting transport', 'audience-strategy verdict (C12), id_token_hint decode, url.ParseQuery keys of the redirect URI, html/template URL filter on the form action are parameters', 'storage and minting always succeed (C18); request_uri never carries the PAR prefix (C17); max_age is small (time.Second*maxAge overflow not modelled)'],
         partial=["the jwks_uri (remote JWKS) branch is modelled but never executed by the harness",
@@ -289,8 +290,8 @@ PROPS = {
                  "at_hash/c_hash follow the session header alg, not the JWS alg; GenerateIDToken compares prompt verbatim; a form grant_type=refresh_token switches off the max_age/prompt/hint block (only reachable in the device flow with an application-supplied form): limit theorems hash_follows_session_header_not_jws_alg, generate_compares_prompt_verbatim, generate_skips_request_checks_on_refresh_grant"],
     ),
     "C15": dict(
-        modules=["Fosite.Props.C15"],
-        drivers=[dict(name="assertion", kind="pure")],
+        modules=["Fosite.Props.C15", "Fosite.Props.StoreAtomic"],
+        drivers=[dict(name="assertion", kind="pure"), dict(name="lockfacts", kind="lockfacts", methods=['SetClientAssertionJWT', 'ClientAssertionJWTValid', 'IsJWTUsed', 'MarkJWTUsedForTime', 'SetClientAssertionJWTRaw'])],
         rule="D5 pure driver 'assertion': each op is one synctest bubble against a fresh MemoryStore + compose.ComposeAllEnabled. Real JWS built by go-jose from descriptors, signed with 2 RSA-2048 and 2 P-256 keys generated once per process, algs RS256/PS256/ES256; HS256 keyed with the PKIX bytes of a registered public key; alg=none hand-built; the 'by' fact on each line is cross-checked with go-jose Verify against all four keys. Client path: NewAccessRequest (client_credentials), NewRevocationRequest, NewPushedAuthorizeRequest, NewDeviceRequest. Bearer path: NewAccessRequest + NewAccessResponse with keys in MemoryStore.IssuerPublicKeys. Three valid bases per path; all single deviations over ~20 dimensions (wire, client_id, alg x signer, kid, each claim absent / wrong type / wrong value, exp/nbf/iat at +-{0, 1 ns, 0.5 s, 1 s}, auth method, registered alg, JWKS shapes, token URLs 0/1/2, endpoint, iat/jti optional, max duration +-1 ns, scope strategy, key registrations); pairs sampled in quick and exhaustive in thorough, plus random 1-4-fold mutations. Replay histories: replay at exp + each boundary delta, both presentations around exp, 3-6 presentations, bad-audience first (burns the jti), failures that do not burn it, same jti with a different exp or client/issuer, optional jti, seeded random histories. Concurrency: 2 and 3 goroutines presenting one assertion, free-running. Compared: ok client=... / ok / ok sub=... / err name/status per presentation, or accepted=k/n",
         assumptions=["JWS parsing and verification plus JSON decoding are parameters: by = the verifying key; floats carry their int64() truncation, which the executor re-checks",
                      "JWKS are inline only; bearer runs with GrantTypeJWTBearerCanSkipClientAuth=true and a DefaultSession",
@@ -352,10 +353,13 @@ def run_lock_facts(R, pid, d, work, seed, tier):
             res["distinct_nontrivial"].add(name)
     res["samples"] = [{"method": n, "events": e[:200]} for n, e in methods[:4]] + [{"report": l} for l in lines[:8]]
     hist = {}
+    only = d.get("methods")
     for l in lines:
         f = l.split(" ")
         hist[f[0]] = hist.get(f[0], 0) + 1
         sig = None
+        if only is not None and (len(f) < 2 or f[1] not in only):
+            continue   # another property's store operations (C19 reports them all)
         if f[0] == "DISCIPLINE":
             sig = "C19:unprotected-access:%s:%s:%s" % (f[1], f[4], f[3])
         elif f[0] == "GETTER":
@@ -367,6 +371,7 @@ def run_lock_facts(R, pid, d, work, seed, tier):
         elif f[0] == "ACYCLIC" and f[1] != "true":
             sig = "C19:lock-order-cycle"
         if sig:
+            sig = pid + sig[3:] if only is not None else sig
             res["monitor_hits"].append({"signature": sig, "driver": "lockfacts", "ops": [l], "impl": [l],
                                         "what": "lock-discipline checker over the regenerated source facts reports: " + l})
     res["histogram"] = hist
@@ -395,13 +400,15 @@ def run_stress(R, pid, d, work, seed, tier):
     cur = None
     ops = 0
     for l in lines:
-        if l.startswith(("RACE ", "FATAL ", "PANIC ", "DEADLOCK ", "RAW-RACE ", "RAW-FATAL ", "RAW-PANIC ", "RAW-DEADLOCK ")):
+        if l.startswith(("RACE ", "FATAL ", "PANIC ", "DEADLOCK ", "HANDED ", "RAW-RACE ", "RAW-FATAL ", "RAW-PANIC ", "RAW-DEADLOCK ", "RAW-HANDED ")):
             f = l.split(" ")
             rawstore = f[0].startswith("RAW-")
             kind = f[0][4:] if rawstore else f[0]
             if kind == "RACE":
                 a, b = sorted(f[1:3])
                 sig = "C19:race:%s:%s" % (a, b)
+            elif kind == "HANDED":
+                sig = "C19:handed-token-not-active:%s" % "_".join(f[2:])[:100]
             else:
                 sig = "C19:%s:%s" % (kind.lower(), "_".join(f[1:])[:120])
             # The run over the store as it is (requests shared by pointer between the callers that look up the
@@ -423,6 +430,17 @@ def run_stress(R, pid, d, work, seed, tier):
             res["samples"].append({"stress": l[:300]})
         elif cur is not None and l.strip():
             cur["impl"].append(l.strip()[:200])
+    if d.get("only"):
+        # this property's share of the stress: reports whose frames lie in the named packages / types
+        keep = []
+        for h in res["monitor_hits"]:
+            text = " ".join(h["ops"] + h["impl"])
+            if "stored-request-shared-between-concurrent-requests" in h["signature"]:
+                continue   # the recorded aliasing finding of the raw store (C19), whatever frames it shows
+            if any(o in text for o in d["only"]):
+                h["signature"] = pid + h["signature"][3:]
+                keep.append(h)
+        res["monitor_hits"] = keep
     res["evaluations"] = ops
     res["traces"] = ops
     res["distinct_nontrivial"] = set(["stress-op-%d" % i for i in range(min(ops, 2))])
